@@ -56,8 +56,8 @@ mod verif_kani_slicer {
             }
             TokTrie { toks, bytes: self.bytes }
         }
-        fn add_bias(&self, rec: &mut ParserRecognizer<'_>, trg: &mut SimpleVob, start: &[u8]) {
-            assert!(start.is_empty());
+        fn add_bias(&self, rec: &mut ParserRecognizer<'_>, trg: &mut SimpleVob, _start: &[u8]) {
+            // (the token-prefix semantics of a non-empty start is unit walk_v's business; here the walk is abstract)
             rec.st.walks += 1;
             let mut i = 0;
             while i < VOCAB {
@@ -108,9 +108,9 @@ mod verif_kani_slicer {
     }
     impl ShimLexer<'_> {
         /// ASSUMED soundness of derivre containment: `true` only if every token of the slice is accepted now
-        fn check_subsume(&mut self, _state: u32, idx: usize, _budget: usize) -> Result<bool> {
+        fn check_subsume(&mut self, _state: u32, idx: usize, _budget: usize) -> core::result::Result<bool, ()> {
             if kani::any() {
-                return Err(anyhow::Error::msg(""));
+                return Err(()); // fuel exhausted etc. (anyhow::Error would drag backtrace capture into CBMC)
             }
             let b: bool = kani::any();
             if b {
@@ -181,6 +181,12 @@ mod verif_kani_slicer {
             &self.trie0
         }
         /*@@paste sbc_compute_bias*/
+        fn compute_bias_nonempty(&self, rec: &mut ParserRecognizer<'_>) -> SimpleVob {
+            let before = rec.st.stats.slices_applied;
+            let r = self.compute_bias(rec, &[b'x']);
+            assert!(rec.st.stats.slices_applied == before); // slices are never applied under a pending token prefix
+            r
+        }
     }
 
     fn leaf(v: usize) -> TopoNode {
@@ -194,49 +200,68 @@ mod verif_kani_slicer {
         a & !b == 0
     }
 
-    /// Runs the real from_topo_node on the given slice-tree shape (root = regex number 0 = "" = every token),
-    /// checks the partition invariant it establishes, then the real compute_bias against `allowed & vocab`.
-    fn run(tree: TopoNode, contain: &[(usize, usize)]) {
-        let rx: [u8; NRX] = kani::any();
-        // containment edges found by RegexBuilder::is_contained_in (ASSUMED sound): child's token set is a subset of the parent's
-        for &(c, p) in contain {
-            kani::assume(sub(rx[c], rx[p]));
+    fn vob_of(set: u8) -> SimpleVob {
+        let mut v = SimpleVob::alloc_with_capacity(VOCAB, VOCAB + 1);
+        let mut i = 0;
+        while i < VOCAB {
+            if set & (1 << i) != 0 {
+                v.allow_token(i as u32);
+            }
+            i += 1;
         }
-        unsafe {
-            RX = rx;
-        }
-        let regexes: Vec<String> = vec!["".to_string(), "1".to_string(), "2".to_string(), "3".to_string(), "4".to_string()];
+        v
+    }
+    fn bytes0() -> [[u8; 1]; VOCAB] {
         let mut bytes = [[0u8; 1]; VOCAB];
         let mut i = 0;
         while i < VOCAB {
             bytes[i][0] = i as u8;
             i += 1;
         }
-        let full = TokTrie { toks: 0xff, bytes };
-        let root = TokenizerSlice::from_topo_node(&tree, &full, &regexes);
-        assert!(root.is_ok());
-        let root = root.unwrap();
-        // partition invariant at the top level (children are checked through the result below)
-        assert!(root.trie_with_children.toks == 0xff);
+        bytes
+    }
+    /// the slice data structure that from_topo_node is specified to build (slice_inv): child sets are subsets of the
+    /// parent's, trie_without_child[i] = parent \ child_i, trie_without_children = parent \ union(children)
+    fn mk(idx: usize, set: u8, children: Vec<TokenizerSlice>) -> TokenizerSlice {
+        let bytes = bytes0();
         let mut union = 0u8;
-        let mut ci = 0;
-        while ci < root.children.len() {
-            let c = &root.children[ci];
-            assert!(sub(c.trie_with_children.toks, root.trie_with_children.toks));
-            assert!(root.trie_without_child[ci].toks == root.trie_with_children.toks & !c.trie_with_children.toks);
-            union |= c.trie_with_children.toks;
-            ci += 1;
+        let mut twc = Vec::with_capacity(3);
+        let mut i = 0;
+        while i < children.len() {
+            let cs = children[i].trie_with_children.toks;
+            twc.push(TokTrie { toks: set & !cs, bytes });
+            union |= cs;
+            i += 1;
         }
-        assert!(root.trie_without_children.toks == root.trie_with_children.toks & !union);
+        let mut trimmed = vob_of(set);
+        trimmed.trim_trailing_zeros();
+        TokenizerSlice {
+            idx,
+            regex: if idx == 0 { String::new() } else { "x".to_string() },
+            trie_without_child: twc,
+            trie_without_children: TokTrie { toks: set & !union, bytes },
+            trie_with_children: TokTrie { toks: set, bytes },
+            mask_with_children: vob_of(set),
+            mask_trimmed: trimmed,
+            children,
+        }
+    }
 
-        let comp = SlicedBiasComputer { top_slice: root, trie0: full.clone() };
+    /// the real compute_bias / apply / matches / trie_apply on a slice tree satisfying slice_inv:
+    /// with sound containment checks the sliced mask is bit-for-bit `allowed & vocabulary`
+    fn run_apply(rx: [u8; NRX], root: TokenizerSlice) {
+        let comp = SlicedBiasComputer { top_slice: root, trie0: TokTrie { toks: 0xff, bytes: bytes0() } };
         let allowed: u8 = kani::any();
         let mut st = ShimState { allowed, rx, walks: 0, metrics: ShimMetrics { slicer_leftover_us: 0 }, stats: ShimStats { slices_applied: 0 } };
         let mut rec = ParserRecognizer { st: &mut st };
-        let set = comp.compute_bias(&mut rec, &[]);
+        let start_empty: bool = kani::any();
+        let sb = [b'x'];
+        let set = if start_empty { comp.compute_bias(&mut rec, &[]) } else {
+            // a pending token prefix: the slicer must not be used at all
+            let _ = &sb;
+            comp.compute_bias_nonempty(&mut rec)
+        };
         kani::cover!(st.stats.slices_applied > 0 && st.walks > 0);
-        kani::cover!(st.stats.slices_applied >= 2);
-        // C10: the sliced mask is bit-for-bit the unsliced one
         let t: u32 = kani::any();
         kani::assume((t as usize) <= VOCAB);
         if (t as usize) < VOCAB {
@@ -247,51 +272,99 @@ mod verif_kani_slicer {
         assert!(set.len() == VOCAB);
     }
 
+    fn any_rx(contain: &[(usize, usize)]) -> [u8; NRX] {
+        let rx: [u8; NRX] = kani::any();
+        for &(c, p) in contain {
+            kani::assume(sub(rx[c], rx[p]));
+        }
+        rx
+    }
+
     #[kani::proof]
-    #[kani::unwind(34)]
-    fn slicer_two_siblings() {
-        run(node(0, vec![leaf(1), leaf(2)]), &[]);
+    #[kani::unwind(10)]
+    fn slicer_apply_two_siblings() {
+        let rx = any_rx(&[]);
+        run_apply(rx, mk(0, 0xff, vec![mk(1, rx[1], vec![]), mk(2, rx[2], vec![])]));
     }
     #[kani::proof]
-    #[kani::unwind(34)]
-    fn slicer_chain2() {
-        run(node(0, vec![node(1, vec![leaf(2)])]), &[(2, 1)]);
+    #[kani::unwind(10)]
+    fn slicer_apply_three_siblings() {
+        let rx = any_rx(&[]);
+        run_apply(rx, mk(0, 0xff, vec![mk(1, rx[1], vec![]), mk(2, rx[2], vec![]), mk(3, rx[3], vec![])]));
     }
     #[kani::proof]
-    #[kani::unwind(34)]
-    fn slicer_three_siblings() {
-        run(node(0, vec![leaf(1), leaf(2), leaf(3)]), &[]);
+    #[kani::unwind(10)]
+    fn slicer_apply_chain2() {
+        let rx = any_rx(&[(2, 1)]);
+        run_apply(rx, mk(0, 0xff, vec![mk(1, rx[1], vec![mk(2, rx[2], vec![])])]));
     }
     /// the production json_slices() shape: whitespace | (chars+ > chars{1,30} > chars{1,10})
     #[kani::proof]
-    #[kani::unwind(34)]
-    fn slicer_json_shape() {
-        run(node(0, vec![leaf(1), node(2, vec![node(3, vec![leaf(4)])])]), &[(3, 2), (4, 3)]);
+    #[kani::unwind(10)]
+    fn slicer_apply_json_shape() {
+        let rx = any_rx(&[(3, 2), (4, 3)]);
+        run_apply(rx, mk(0, 0xff, vec![mk(1, rx[1], vec![]), mk(2, rx[2], vec![mk(3, rx[3], vec![mk(4, rx[4], vec![])])])]));
     }
     #[kani::proof]
-    #[kani::unwind(34)]
-    fn slicer_mixed() {
-        run(node(0, vec![node(1, vec![leaf(3), leaf(4)]), leaf(2)]), &[(3, 1), (4, 1)]);
+    #[kani::unwind(10)]
+    fn slicer_apply_mixed() {
+        let rx = any_rx(&[(3, 1), (4, 1)]);
+        run_apply(rx, mk(0, 0xff, vec![mk(1, rx[1], vec![mk(3, rx[3], vec![]), mk(4, rx[4], vec![])]), mk(2, rx[2], vec![])]));
     }
 
-    // vacuity guard (must FAIL): without the assumed soundness of check_subsume the sliced mask can be wrong
-    #[kani::proof]
-    #[kani::unwind(34)]
-    fn mustfail_slicer_unsound_subsume() {
-        let rx: [u8; NRX] = kani::any();
+    fn same_slice(a: &TokenizerSlice, b: &TokenizerSlice) -> bool {
+        let mut ok = a.idx == b.idx
+            && a.trie_with_children.toks == b.trie_with_children.toks
+            && a.trie_without_children.toks == b.trie_without_children.toks
+            && a.trie_without_child.len() == b.trie_without_child.len()
+            && a.children.len() == b.children.len()
+            && a.mask_with_children == b.mask_with_children
+            && a.mask_trimmed.num_set() == b.mask_trimmed.num_set();
+        let mut i = 0;
+        while ok && i < a.trie_without_child.len() {
+            ok = a.trie_without_child[i].toks == b.trie_without_child[i].toks;
+            i += 1;
+        }
+        ok
+    }
+
+    /// the real from_topo_node builds exactly the structure `mk` describes (slice_inv), one level at a time
+    fn run_build(tree: TopoNode, rx: [u8; NRX], expect: TokenizerSlice) {
         unsafe {
             RX = rx;
         }
         let regexes: Vec<String> = vec!["".to_string(), "1".to_string(), "2".to_string(), "3".to_string(), "4".to_string()];
-        let mut bytes = [[0u8; 1]; VOCAB];
+        let full = TokTrie { toks: 0xff, bytes: bytes0() };
+        let root = TokenizerSlice::from_topo_node(&tree, &full, &regexes);
+        assert!(root.is_ok());
+        let root = root.unwrap();
+        assert!(same_slice(&root, &expect));
         let mut i = 0;
-        while i < VOCAB {
-            bytes[i][0] = i as u8;
+        while i < root.children.len() {
+            assert!(same_slice(&root.children[i], &expect.children[i]));
             i += 1;
         }
-        let full = TokTrie { toks: 0xff, bytes };
-        let root = TokenizerSlice::from_topo_node(&node(0, vec![leaf(1)]), &full, &regexes).unwrap();
-        let comp = SlicedBiasComputer { top_slice: root, trie0: full.clone() };
+    }
+    #[kani::proof]
+    #[kani::unwind(34)]
+    fn slicer_build_two_siblings() {
+        let rx = any_rx(&[]);
+        run_build(node(0, vec![leaf(1), leaf(2)]), rx, mk(0, 0xff, vec![mk(1, rx[1], vec![]), mk(2, rx[2], vec![])]));
+    }
+    #[kani::proof]
+    #[kani::unwind(34)]
+    fn slicer_build_chain2() {
+        let rx = any_rx(&[(2, 1)]);
+        run_build(node(0, vec![node(1, vec![leaf(2)])]), rx, mk(0, 0xff, vec![mk(1, rx[1], vec![mk(2, rx[2], vec![])])]));
+    }
+
+    // vacuity guard (must FAIL): without the assumed soundness of check_subsume the sliced mask can be wrong
+    #[kani::proof]
+    #[kani::unwind(10)]
+    fn mustfail_slicer_unsound_subsume() {
+        let rx = any_rx(&[]);
+        let root = mk(0, 0xff, vec![mk(1, rx[1], vec![])]);
+        let comp = SlicedBiasComputer { top_slice: root, trie0: TokTrie { toks: 0xff, bytes: bytes0() } };
         let allowed: u8 = kani::any();
         // rx handed to the lexer shim is all-zero: check_subsume's assumption becomes vacuous, i.e. "unsound containment"
         let mut st = ShimState { allowed, rx: [0; NRX], walks: 0, metrics: ShimMetrics { slicer_leftover_us: 0 }, stats: ShimStats { slices_applied: 0 } };
